@@ -130,7 +130,9 @@ impl Exec {
                         w.emit(Ev::RootCreated { fam: *fam });
                         kids
                     });
-                    if *plain {
+                    if *plain && fam.is_stream() {
+                        with(|w| w.model.unit_items = true);
+                    } else if *plain {
                         with(|w| {
                             for &k in &kids {
                                 w.node_mut(k).untracked_drop = true;
@@ -157,6 +159,7 @@ impl Exec {
                         y if y < u32::MAX => 4 * (y - 1_000_000),
                         _ => 0,
                     };
+                    w.log_limit = 40 * n as usize + 12 * extra as usize;
                     self.cap = 400 + 10 * n + extra + 4 * crate::group::planned_ops(&self.plan) + 8 * crate::costream::planned_items(&self.plan);
                 });
             }
